@@ -42,10 +42,10 @@ theorem totalLen_step {i : Inst} {s : State} (hwf : WF i) (hi : Inv i s) (hopen 
   have hdep : (step i s a).depot = 0 := (inv_step hwf hi ha hm).dep0
   have hk := hwf.kpos
   have hlen : (step i s a).len = upd s.len 0 (s.len 0 +
-      (if i.openMode = true ∧ a < i.K ∧ i.K ≤ s.cur then 0
+      (if (i.openMode && decide (a < i.K) && decide (i.K ≤ s.cur)) = true then 0
        else if a < i.K ∧ s.cur < i.K then 0 else i.D s.cur a)) := by
     have hd0 : (if backFlag i s a = true then a else s.depot) = 0 := hdep
-    simp only [step, hd0]
+    simp only [step, hd0, openZero_eq]
   simp only [totalLen, lens, hlen, hwf.kg]
   rw [sum_range_upd i.K s.len 0 _ (by omega)]
   by_cases haK : a < i.K
